@@ -336,21 +336,21 @@ pub fn check(ctx: &Ctx) -> Check {
         Box::new(RandomPart {
             name: "lib-roundtrip",
             rule: "shapes with 1..6 axes (<=600 cells; one case in seven has 255..12000 cells with sizes around powers of two) x f64 zoo (+-0, subnormals, 1e300, negatives, NaN payloads, +-inf) x precision 0..17 x {text, npy}: write::Builder -> file -> read::Builder with auto-detected format; npy bit-identical, text within half a unit of the p-th decimal (+1 ulp) for finite values, non-finite values must not make the read fail; non-trivial = (>=2 axes or a special value) and (npy or a value whose p-decimal rounding is not the identity)",
-            cases: ctx.tier.pick(5000, 80_000),
+            cases: ctx.tier.pick(12_000, 150_000),
             strategy: Box::new(|| lib_strategy().boxed()),
             eval: Box::new(eval_lib),
         }),
         Box::new(RandomPart {
             name: "cli-pipelines",
             rule: "producer in {view (text), view -O npy, fold} x consumer in {view, fold, stat -s sum} x link in {file via -o (half of them onto an existing, longer file), OS pipe fed by the harness, shell pipe between two sfs processes}: the consumer must accept (exit 0) and its numbers must agree with what the producer wrote; non-trivial = >=2 axes",
-            cases: ctx.tier.pick(400, 5000),
+            cases: ctx.tier.pick(800, 8000),
             strategy: Box::new(|| pipe_strategy().boxed()),
             eval: Box::new(eval_pipe),
         }),
         Box::new(RandomPart {
             name: "text-npy-text",
             rule: "text spectra whose printed values have <=15 significant digits (mantissa < 10^15, p decimals) -> `view -O npy` -> `view --precision p`: byte-identical to the original text; non-trivial = >=2 axes and p > 0",
-            cases: ctx.tier.pick(400, 5000),
+            cases: ctx.tier.pick(800, 8000),
             strategy: Box::new(|| tnt_strategy().boxed()),
             eval: Box::new(eval_tnt),
         }),
